@@ -622,7 +622,12 @@ def compare(case, impl, model):
             return False
         if a[:failing_save] != b[:failing_save]:
             return False
-        return [head_of(t) for t in a[failing_save:]] == [head_of(t) for t in b[failing_save:]]
+        # (which segments carry a closed channel decides which later writes start a background
+        # flush, hence also whether a later completion event finds an unfinished write)
+        def norm(t):
+            h = head_of(t)
+            return "c" if h == "c-" else h
+        return [norm(t) for t in a[failing_save:]] == [norm(t) for t in b[failing_save:]]
     body = impl
     while body.endswith(" RACE"):
         body = body[:-5]
